@@ -97,7 +97,7 @@ func runC18(l *core.Ledger) {
 	sort.Strings(sites)
 	l.Floor("C18-Z2", n, 5, "go statements in the client runtime")
 	l.With(map[string]string{"C12-X2": "C18-Z2"}, func() { c12X2(l, r) })
-	l.With(map[string]string{"C08-B3": "C18-Z2"}, func() { c08B3(l, r) })
+	l.With(map[string]string{"C08-B3": "C18-Z2"}, func() { c08B3x(l, r, false) })
 	loops := findReplyLoops(l, r, "C18-Z2")
 	l.With(map[string]string{"C02-T1": "C18-Z2", "C02-T3": "C18-Z2", "C02-T5": "C18-Z2"}, func() {
 		for _, rl := range loops {
@@ -125,7 +125,7 @@ func runC18(l *core.Ledger) {
 			c18Retained(l, rl.key+"/replies", mm, mm.Pos())
 		}
 	}
-	l.Floor("C18-Z3", nz, 8, "per-call allocations (reply channels and reply maps)")
+	l.Floor("C18-Z3", nz, 6, "per-call allocations (reply channels and reply maps)")
 }
 
 func isSendMsgLike(f *ssa.Function) bool {
